@@ -176,8 +176,8 @@ theorem asmFile_sect_gram (i : FileInfo) (buf : Bytes) (secs : List Section) (st
 
 theorem map_facts : ∀ (fs' : List File) (fis : List FileI), (∀ f ∈ fis, wfFile f = true) →
     fs'.map (fun f => (f.info.attrs, f.buf)) = fis.map (fun f => (storedAttrs f, serFile f)) → GoodFiles fs' →
-    lastSize fis = lastBufLen fs' ∧ (∀ f ∈ fis, sizeFile f < B) ∧ fis.length = fs'.length
-  | [], [], _, _, _ => ⟨rfl, by simp, rfl⟩
+    (∀ f ∈ fis, sizeFile f < B) ∧ fis.length = fs'.length
+  | [], [], _, _, _ => ⟨by simp, rfl⟩
   | [], _ :: _, _, h, _ => by simp at h
   | _ :: _, [], _, h, _ => by simp at h
   | f' :: fs', fi :: fis, hwf, h, hg => by
@@ -188,20 +188,11 @@ theorem map_facts : ∀ (fs' : List File) (fis : List FileI), (∀ f ∈ fis, wf
     have hgf : f'b.length < B := hg.1.1
     have ih := map_facts fs' fis (fun g hg' => hwf g (List.mem_cons_of_mem _ hg')) hrest hg.2
     have hb' : f'b = serFile fi := hb
-    refine ⟨?_, ?_, by simp [ih.2.2]⟩
-    · cases fs' with
-      | nil =>
-        cases fis with
-        | nil => simp [lastSize, lastBufLen, File.buf, hb', hsz]
-        | cons a b => simp at hrest
-      | cons g' gs' =>
-        cases fis with
-        | nil => simp at hrest
-        | cons a b => simpa [lastSize, lastBufLen] using ih.1
+    refine ⟨?_, by simp [ih.2]⟩
     · intro g hg'
       rcases List.mem_cons.mp hg' with rfl | hg''
       · rw [← hsz, ← hb']; exact hgf
-      · exact ih.2.1 g hg''
+      · exact ih.1 g hg''
 
 theorem asmFv_relaid_gram (i : FvInfo) (buf : Bytes) (files files' : List File) (st : St) (v' : Fv) (st' : St)
     (k : Skel) (fis : List FileI)
@@ -247,9 +238,9 @@ theorem asmFv_relaid_gram (i : FvInfo) (buf : Bytes) (files files' : List File) 
   rename_i fbuf hplace
   have hbne' : k.blocks ≠ [] := by
     intro hc; rw [hi.hblocks, hc] at hbne; exact hbne rfl
-  obtain ⟨_, hcount, hgoodtail, hgoodfiles⟩ := hg
+  obtain ⟨_, hcount, hgoodfiles⟩ := hg
   have hsmall : out.length < B := by assumption
-  obtain ⟨hlast, hsizes, hlen⟩ := map_facts files' fis hwf hmap hgoodfiles
+  obtain ⟨hsizes, hlen⟩ := map_facts files' fis hwf hmap hgoodfiles
   have hpre33 := k.pre_lt hk
   have hbudget := layEnd_budget fis k.pre (fun f hf' => by have := hsizes f hf'; unfold B at this; omega)
   have hlay62 : layEnd k.pre fis < 2 ^ 62 := by
@@ -289,28 +280,9 @@ theorem asmFv_relaid_gram (i : FvInfo) (buf : Bytes) (files files' : List File) 
       omega
     rw [← this]; exact hsmall
   have hpre' : ({ k with len := L', blocks := blocks' } : Skel).pre = k.pre := by simp only [Skel.pre, c4]
-  have hgoodt := hgoodtail hne
-  have hfree' : i'.freeSpace = L' - alignUp (layEnd k.pre fis) 8 := hfree
-  have hL8 : L' % 8 = 0 := hk'.hlen8
-  have hau := alignUp8 (layEnd k.pre fis)
-  have hfit : Fits k.pre L' fis := by
-    apply fits_of fis k.pre L' hnL
-    intro he
-    rw [hlast]
-    apply hgoodt.2
-    rw [hfree', he]
-    have : alignUp L' 8 = L' := alignUp_of_mod _ 8 (by decide) hL8
-    omega
+  have hfit : Fits k.pre L' fis := fits_of fis k.pre L' hnL
   have hwfFiles : wfFiles k.pre L' (withPads k.pre fis) = true :=
     wfFiles_withPads fis k.pre L' hwf hfit (by unfold B at hL'B; omega)
-  have htail : endFiles k.pre (withPads k.pre fis) + 24 < L' →
-      alignUp (endFiles k.pre (withPads k.pre fis)) 8 + 32 ≤ L' := by
-    rw [hend]
-    intro hlt
-    have h24 := hgoodt.1
-    rw [hfree'] at h24
-    have : alignUp (layEnd k.pre fis) 8 ≤ L' := by omega
-    omega
   have hbig : anyBigFiles (withPads k.pre fis) = false :=
     anyBigFiles_small _ (sizeFile_withPads fis k.pre (fun f hf' => by have := hsizes f hf'; unfold B at this; exact this)
       (by unfold B at hL'B; omega))
@@ -318,7 +290,7 @@ theorem asmFv_relaid_gram (i : FvInfo) (buf : Bytes) (files files' : List File) 
     intro hc; rw [hc] at hbl; exact hbne' (List.length_eq_zero_iff.mp hbl.symm)
   have hwfv : wfFv (({ k with len := L', blocks := blocks' } : Skel).vol (withPads k.pre fis)) = true :=
     wfFv_vol _ hk' _ (by unfold B at hL'B; simp only; omega) (Or.inr hblne) (by rw [hpre']; exact hwfFiles)
-      (by rw [hpre', hend]; exact hnL) (by rw [hpre']; exact htail) hbig
+      (by rw [hpre', hend]; exact hnL) hbig
   have hser : out = serFv (({ k with len := L', blocks := blocks' } : Skel).vol (withPads k.pre fis)) := by
     rw [serFv_vol _ _ (by rw [hpre', hend]; exact hnL), hpre', hend, hout]
     simp only [Skel.guid, c2, c3, List.append_assoc]
@@ -614,7 +586,7 @@ theorem asm_canon_fv : ∀ (v : Fv), CanonFv v → ∀ (st : St) (v' : Fv) (st' 
       obtain ⟨v'i, v'b, v'f⟩ := v'
       simp only [Fv.files] at hvf
       subst hvf
-      obtain ⟨e1, c1, fis, w1, m1, ab1, av1⟩ := asm_canon_files files hcf st v'f st1 hp hf hfs hg.2.2.2
+      obtain ⟨e1, c1, fis, w1, m1, ab1, av1⟩ := asm_canon_files files hcf st v'f st1 hp hf hfs hg.2.2
       subst e1
       have hne' : v'f ≠ [] := by
         intro hc'
